@@ -25,7 +25,7 @@ RULE = ("Histories over server.method.ProofState starting from library theorems 
         "(rule, citations, sequent, printed arguments) and the same check result; fingerprints of all earlier copies are "
         "unchanged. Non-trivial: >= 3 completed ops including one that spliced more than one line; distinct by op list.")
 ASSUMPTIONS = [
-    "recorded steps of the library theorems drive the walks; goals are library goals (generated goals are not used)",
+    "recorded steps of the library theorems drive most walks; a fixed list of generated propositional / quantifier goals in theory logic is walked with suggestions and perturbations only",
     "an op that raises is outside the property (it speaks of operations that complete); its state is discarded",
     "full re-checks run under a 60 s timer per op; hits are inconclusive",
 ]
@@ -101,6 +101,36 @@ def shadowed_variable(state):
                 return True
         return False
     return rec(state.prf, outer)
+
+def term_roundtrip_broken(state, line, uni):
+    """The sequent of this exported line cannot be parsed back even in isolation, with exactly the variables
+    visible at that line declared."""
+    from logic import context
+    from syntax import parser
+    from syntax.settings import global_setting
+    if not line.get('th'):
+        return False
+    try:
+        vars = state.get_vars(line['id'])
+    except Exception:
+        return False
+    prev = context.ctxt
+    context.ctxt = context.Context(vars=dict(vars))
+    try:
+        try:
+            th = parser.parse_thm(line['th'])
+        except Timeout:
+            raise
+        except Exception:
+            return True
+        try:
+            item = state.get_proof_item(line['id'])
+            return item.th is not None and edit_lib.thm_key(th) != edit_lib.thm_key(item.th)
+        except Exception:
+            return False
+    finally:
+        context.ctxt = prev
+
 
 def repeated_assumption(state):
     """Some stated line has the same antecedent twice in its chain A1 --> ... --> An --> C."""
@@ -199,6 +229,11 @@ def check_invariants(state, goal_key, item, H, case, last_method):
         finally:
             context.ctxt = prev_ctxt
         if failing is not None:
+            if not shadow and term_roundtrip_broken(state, failing.line, uni):
+                # the statement of the line does not survive print -> parse on its own: that is property C07's
+                # business (operator printing), not an editing defect
+                H.inconc('reimport-blocked-by-print-parse-defect(C07)')
+                return True
             feat = shadow if shadow else 'rule=%s' % failing.rule
             H.violation(('edit:reimport:%s' % shadow) if shadow else 'edit:reimport-fails:%s' % feat, case,
                         'unicode=%s line %s (%s): %s' % (uni, failing.line.get('id'), failing.rule, failing.detail[:300]))
@@ -474,6 +509,8 @@ def run_case(case, H):
 def case_strategy(corpus):
     from hypothesis import strategies as st
     pool = [(th, nm) for th in sorted(corpus) for nm in corpus[th]]
+    # generated goals (no recorded steps: walks consist of suggestions and perturbations only)
+    pool = pool + [('#goal', str(k)) for k in range(len(edit_lib.GOALS))] * 4
     small = st.integers(0, 7)
     op = st.one_of(
         st.tuples(st.just('next'), st.booleans()).map(list),
